@@ -81,7 +81,35 @@ def _gen_prio_silent(rng, tier):
                "sched": {"seed": rng.randrange(1 << 30), "net_jitter": rng.choice([None, [0.3, 3]])}, "horizon": 100.0}
 
 
+def _gen_upload_while_stalled(rng, tier):
+    """Stream 1 is an upload whose application first sends a response larger than the window (and so waits for credit) before it reads
+    the body; the client sends its DATA frames, then the credit, then opens stream 3.  A stalled stream must not stop the others (nor the
+    reading of the very WINDOW_UPDATE it is waiting for)."""
+    from ..wire.h2raw import FrameBuilder, client_preface
+
+    for k in range(6 if tier == "quick" else 120):
+        tag = 9300000 + k * 10
+        nframes = rng.choice([5, 9, 10, 11, 14, 30])  # + END_STREAM: the application's queue holds 10 messages
+        size = rng.choice([70000, 200000])
+        fb = FrameBuilder()
+        rspec = {"kind": "h2", "initial_window": 65535, "max_frame": 16384, "credit": "none"}
+        by_tag = {str(tag): [["send", {"type": "http.response.start", "status": 200, "headers": [(b"x-tag", b"%d" % tag)]}],
+                             ["send_stream", ("c9", tag), size, 16384, True], ["recv_until_end"]],
+                  str(tag + 1): [["recv_until_end"], ["respond", 200, [(b"x-tag", b"%d" % (tag + 1))], b"late-%d" % (tag + 1)]]}
+        up = fb.headers(1, [(b":method", b"POST"), (b":scheme", b"http"), (b":path", b"/t%d" % tag), (b":authority", b"h")], end_stream=False)
+        datas = b"".join(fb.data(1, b"u%03d" % j, end_stream=(j == nframes - 1)) for j in range(nframes))
+        get3 = fb.headers(3, [(b":method", b"GET"), (b":scheme", b"http"), (b":path", b"/t%d" % (tag + 1)), (b":authority", b"h")], end_stream=True)
+        client = [["feed", client_preface(fb, rspec) + up], ["settle"], ["feed", datas], ["settle"],
+                  ["react", "window_update", 1, size], ["react", "window_update", 0, size + 1000], ["settle"], ["feed", get3], ["settle"]]
+        yield {"family": "upload-while-stalled.%d" % nframes, "backends": ["asyncio", "trio"], "config": {"keep_alive_timeout": 5000}, "conn": {},
+               "apps": {"default": [["recv_until_end"], ["respond", 200, [], b"d"]], "by_tag": by_tag}, "client": client, "reactor": rspec,
+               "truth": {"streams": [{"sid": 1, "tag": tag, "size": size, "rst_at": None}, {"sid": 3, "tag": tag + 1, "size": 0, "rst_at": None, "literal": True}],
+                         "iw": 65535, "mf": 16384, "policy": "upload-while-stalled", "total": size, "nframes": nframes},
+               "sched": {"seed": rng.randrange(1 << 30)}, "horizon": 100.0}
+
+
 def gen(rng, tier):
+    yield from _gen_upload_while_stalled(rng, tier)
     yield from _gen_batched(rng, tier)
     yield from _gen_prio_silent(rng, tier)
     yield from _gen_main(rng, tier)
@@ -270,6 +298,14 @@ def check(case, obs, tally):
                     "detail": "DATA on stream %d of flow length %d exceeds %s=%d (policy %s, initial window %d, max frame %d)" % (
                         v[1], v[2], v[0], v[3], t["policy"], t["iw"], t["mf"])})
     open_sends = {e[4]["inst"] for e in obs.open_sends()}
+    if t["policy"] == "upload-while-stalled" and "http.request" in obs.blocked_puts().values() and open_sends:
+        # mechanism: the connection's reader is waiting for room in the application queue of the stalled stream (more unread body messages
+        # than max_app_queue_size) - nothing the client sends from there on, credit and new streams included, is read
+        tally.clause("complete-ordered")
+        out.append({"clause": "complete-ordered", "sig": "C09.reader-blocked/h2/unread-upload-over-queue",
+                    "detail": "stream 1 (response stalled on its window, %d DATA frames of its upload unread) holds the connection's reader in the "
+                              "application queue: the WINDOW_UPDATE that would release it and the request on stream 3 were never read" % t["nframes"]})
+        return out
     for s in t["streams"]:
         sv = rx.streams.get(s["sid"])
         exp = pattern(("c9", s["tag"]), 0, s["size"]) if not s.get("literal") else b"late-%d" % s["tag"]
